@@ -6,7 +6,8 @@
    kept: [skip] is the state in_argument = false, [in_arg] the state in_argument = true with
    using_quotes / in_control / found_variable_prefix as arguments; found_end is the POk return.
    `index -= 1` on a terminating ' ' or '=' is "the returned suffix still starts with it";
-   `index = end_index` on '#' is "the returned suffix is empty". *)
+   `index = end_index` on '#' is "the returned suffix is empty".  When control_as_char is set (the
+   re-parse of a spread value) '#' is an ordinary character (fix of finding KF-C02-2). *)
 Require Import DS.Base.
 
 Inductive perr :=
@@ -53,7 +54,7 @@ Fixpoint in_arg (fl : flags) (l : str) (acc : str) (uq ic fvp : bool) {struct l}
       else if allow_control fl then in_arg fl l' acc uq true false
       else PErr EInvalidControlLocation
     else if uq && (c =? c_quote) then POk (l', finish acc true)
-    else if negb uq && ((c =? c_sp) || (c =? c_hash) || (stop_on_equals fl && (c =? c_eq))) then
+    else if negb uq && ((c =? c_sp) || ((c =? c_hash) && negb (control_as_char fl)) || (stop_on_equals fl && (c =? c_eq))) then
       POk ((if c =? c_hash then [] else c :: l'), finish acc false)
     else in_arg fl l' (c :: acc) uq false false
   end.
@@ -63,7 +64,7 @@ Fixpoint skip (fl : flags) (l : str) {struct l} : pres (str * option str) :=
   match l with
   | [] => POk ([], None)
   | c :: l' =>
-    if c =? c_hash then POk ([], None)
+    if (c =? c_hash) && negb (control_as_char fl) then POk ([], None)
     else if c =? c_sp then skip fl l'
     else if c =? c_quote then
       if allow_quotes fl then in_arg fl l' [] true false false else PErr EInvalidQuotesLocation
